@@ -592,6 +592,24 @@ func (in *Interp) noteAtomicLoad(c *Cell) {
 			return
 		}
 		t.loads = t.loads[:0]
+		// somebody else can still run: treat the spinner as blocked until one of the cells changes.
+		// Nobody else can run (or sequential mode): a finite polling loop is legitimate, so let it go on,
+		// but a loop that keeps spinning on unchanged cells is a livelock.
+		others := false
+		if in.par {
+			for _, o := range in.threads {
+				if o != t && in.enabled(o) {
+					others = true
+				}
+			}
+		}
+		if !others {
+			t.spinCnt++
+			if t.spinCnt > 300 {
+				in.blockOn(nil, changed, "spin-wait on unchanged atomic cell(s)")
+			}
+			return
+		}
 		in.blockOn(nil, changed, "spin-wait on unchanged atomic cell(s)")
 		return
 	}
@@ -601,5 +619,6 @@ func (in *Interp) noteAtomicWrite(c *Cell) {
 	c.ver++
 	if in.cur != nil {
 		in.cur.loads = in.cur.loads[:0]
+		in.cur.spinCnt = 0
 	}
 }
